@@ -527,6 +527,9 @@ End Layout.
 
 (* ------------------------------------------------------------------ unified-buffer functions *)
 Definition uni_canonical (f : uni_fn) : Prop :=
+  (forall w a h, 1 <= w -> 1 <= h -> 1 <= a -> IS_POW2_c a = true -> u_argguard f w a h = false) /\
+  (forall w a h, a < 1 \/ IS_POW2_c a = false -> u_argguard f w a h = true) /\
+  u_unknown f = (fun s => s =? TJSAMP_UNKNOWN) /\
   u_padguard f = (fun pw0 ph0 align => (pw0 =? 0) || (ph0 =? 0) || (pw0 >? INT_MAX - align)) /\
   u_stride0 f = PAD_c /\ u_stride0_ok f = PAD_c_ok /\ u_stride1 f = PAD_c /\ u_stride1_ok f = PAD_c_ok /\
   u_toolarge f = (fun s0 ph0 s1 ph1 => (u64 (s0 * ph0) >? INT_MAX) || (u64 (s1 * ph1) >? INT_MAX)) /\
@@ -534,7 +537,11 @@ Definition uni_canonical (f : uni_fn) : Prop :=
   u_off2 f = Z.mul /\ u_off2_ok f = (fun x y => in_int (x * y)).
 
 Lemma unified_fns_canonical : Forall uni_canonical unified_fns.
-Proof. repeat constructor. Qed.
+Proof.
+  repeat constructor;
+    try (intros w a h; cbn; unfold uCompressFromYUV8_argguard, uEncodeYUV8_argguard, uDecompressToYUV8_argguard, uDecodeYUV8_argguard, IS_POW2_c;
+         intros; destruct (Z.land a (a - 1) =? 0) eqn:E; cbn [negb]; lia).
+Qed.
 
 Definition unified_result (w a h s : Z) : ures :=
   if plane_fits 0 w a h s && (spec_pw 0 w s + a <=? INT_MAX) then
@@ -555,13 +562,11 @@ Theorem unified_layout_spec f w a h s :
   unified_layout f w a h s = unified_result w a h s.
 Proof.
   intros Hin Hs Hw Hh Ha.
-  pose proof (proj1 (Forall_forall _ _) unified_fns_canonical f Hin) as (C1 & C2 & C3 & C4 & C5 & C6 & C7 & C8 & C9 & C10).
+  pose proof (proj1 (Forall_forall _ _) unified_fns_canonical f Hin) as (G1 & G2 & G3 & C1 & C2 & C3 & C4 & C5 & C6 & C7 & C8 & C9 & C10).
   pose proof Ha as [[Ha1 Ha2] Ha3].
   destruct (valid_align_pow2 a Ha) as (k & Hk & ->). pose proof (align_bounds k Hk) as Bk.
   unfold unified_layout, unified_result.
-  rewrite Ha3. cbn [negb].
-  assert (G : (w <=? 0) || (2 ^ k <? 1) || false || (h <=? 0) = false) by (unfold valid_dim in *; lia).
-  rewrite G. clear G.
+  rewrite G1 by (unfold valid_dim in *; try assumption; lia). rewrite G3.
   assert (G : s =? TJSAMP_UNKNOWN = false) by (unfold valid_samp, TJSAMP_UNKNOWN in *; lia). rewrite G. clear G.
   rewrite !plane_width_spec, !plane_height_spec by assumption.
   unfold tjPlaneWidth, tjPlaneHeight. rewrite !plane_width_spec, !plane_height_spec by assumption.
@@ -612,13 +617,16 @@ Proof.
 Qed.
 
 (* invalid arguments are rejected before anything is computed *)
-Theorem unified_layout_invalid f w a h s :
+Theorem unified_layout_invalid f w a h s : In f unified_fns ->
   w < 1 \/ h < 1 \/ a < 1 \/ IS_POW2_c a = false \/ s = TJSAMP_UNKNOWN -> unified_layout f w a h s = UErr.
 Proof.
-  intros H. unfold unified_layout.
-  destruct ((w <=? 0) || (a <? 1) || negb (IS_POW2_c a) || (h <=? 0)) eqn:G; [reflexivity|].
-  destruct (IS_POW2_c a); cbn [negb] in G; [|lia].
-  assert (s = TJSAMP_UNKNOWN) as -> by lia. reflexivity.
+  intros Hin H.
+  pose proof (proj1 (Forall_forall _ _) unified_fns_canonical f Hin) as (G1 & G2 & G3 & C1 & _).
+  unfold unified_layout. destruct (u_argguard f w a h) eqn:G; [reflexivity|].
+  rewrite G3. destruct (s =? TJSAMP_UNKNOWN) eqn:U; [reflexivity|].
+  destruct H as [H|[H|[H|[H|H]]]]; try (rewrite G2 in G by tauto; discriminate); try lia.
+  - rewrite (plane_width_invalid 0 w s) by lia. rewrite C1. reflexivity.
+  - rewrite (plane_height_invalid 0 h s) by lia. rewrite C1. cbn [Z.eqb]. rewrite orb_true_r. reflexivity.
 Qed.
 
 (* ------------------------------------------------------------------ overflow checks, as equivalences *)
@@ -889,7 +897,7 @@ Proof.
     destruct (plane_fits 0 w a h s && (spec_pw 0 w s + a <=? INT_MAX)); [|discriminate].
     destruct (s =? TJSAMP_GRAY); [discriminate|].
     destruct ((plane_bytes 0 w a h s >? INT_MAX) || (plane_bytes 1 w a h s >? INT_MAX)); discriminate.
-  - apply unified_layout_invalid.
+  - apply unified_layout_invalid. assumption.
 Qed.
 
 Definition scaled_dims_statement : Prop :=
